@@ -225,6 +225,10 @@ def program_st(draw, max_features=3, faults=True, cfg=None, peek=True, **kw):
                                 for ex in sub["ex"]:
                                     if t[1:-1] in ex["cols"]:
                                         cells += [row[ex["cols"].index(t[1:-1])] for row in ex["rows"]]
+                        # ... or only as the tag of an Examples block
+                        for ex in sub["ex"]:
+                            if ex["rows"]:
+                                cells += list(ex["tags"])
         if cells:
             prog["cfg"]["tagx"] = ["tag", draw(st.sampled_from(cells))]
             prog["cfg"].pop("tagform", None)
